@@ -86,7 +86,16 @@ func ruleGlobalState(r *Run, only map[string]bool) {
 				}
 			}
 			if len(writers) == 0 {
-				r.Check("global-state", key, g.Pos(), true, "immutable after package initialisation: no store to it or through it is reachable from the exported API")
+				// never written by the library — but if it is (or holds) a pointer to mutable module
+				// data that is handed into per-document objects or to callers, every document shares
+				// that one object and whoever customises it through one document changes them all
+				// (a style literal hoisted into a package-level *FontFamily "to avoid duplication")
+				esc := ""
+				if mutableShare(p, g.Type().(*types.Pointer).Elem()) {
+					esc = globalContentEscapes(p, g, reach)
+				}
+				r.Check("global-state", key, g.Pos(), esc == "",
+					"immutable after package initialisation: no store to it or through it is reachable from the exported API"+map[bool]string{true: "", false: "; but " + esc + " — the object is shared by all documents and can be changed through any of them"}[esc == ""])
 				continue
 			}
 			if cfg, ok := processConfig[n]; ok {
@@ -545,6 +554,10 @@ func passedToOnceDo(p *Program, fn *ssa.Function) bool {
 // memory that is not itself part of g's content, or is returned, in a function reachable from the
 // API (other than the initialising literal).  Returns a description of the first escape, or "".
 func globalContentEscapes(p *Program, g *ssa.Global, reach map[*ssa.Function]bool) string {
+	shares := sharesPointers
+	if !globalHasWriters(p, g, reach) {
+		shares = mutableShare
+	}
 	for _, fn := range sortedFuncs(reach) {
 		if passedToOnceDo(p, fn) {
 			continue
@@ -579,6 +592,33 @@ func globalContentEscapes(p *Program, g *ssa.Global, reach map[*ssa.Function]boo
 					}
 				})
 			}
+			// a by-value copy into a local variable that does not escape (doc := tableEntry) is still the
+			// table's content: keep following it instead of reporting the copy itself
+			for changed := true; changed; {
+				changed = false
+				allInstrs(fn, func(in2 ssa.Instruction) {
+					if st, ok := in2.(*ssa.Store); ok && derived[st.Val] {
+						if al := allocBase(st.Addr); al != nil && !al.Heap && !derived[al] {
+							derived[al] = true
+							changed = true
+						}
+					}
+					v, ok := in2.(ssa.Value)
+					if !ok || derived[v] {
+						return
+					}
+					switch x := in2.(type) {
+					case *ssa.UnOp, *ssa.FieldAddr, *ssa.Field, *ssa.IndexAddr, *ssa.Index, *ssa.Lookup, *ssa.Range, *ssa.Next, *ssa.Extract, *ssa.Phi, *ssa.Slice, *ssa.ChangeType, *ssa.MakeInterface, *ssa.TypeAssert:
+						for _, op := range x.Operands(nil) {
+							if *op != nil && derived[*op] {
+								derived[v] = true
+								changed = true
+								return
+							}
+						}
+					}
+				})
+			}
 			allInstrs(fn, func(in2 ssa.Instruction) {
 				if found != "" {
 					return
@@ -588,16 +628,19 @@ func globalContentEscapes(p *Program, g *ssa.Global, reach map[*ssa.Function]boo
 					if !derived[x.Val] || derived[x.Addr] {
 						return
 					}
-					if sharesPointers(p, x.Val.Type()) {
+					if al := allocBase(x.Addr); al != nil && derived[al] {
+						return
+					}
+					if shares(p, x.Val.Type()) {
 						found = fmt.Sprintf("%s stores a %s taken from the table into another object (%s): all documents share what it points to", shortName(fn), x.Val.Type(), p.pos(x.Pos()))
 					}
 				case *ssa.MapUpdate:
-					if derived[x.Value] && !derived[x.Map] && sharesPointers(p, x.Value.Type()) {
+					if derived[x.Value] && !derived[x.Map] && shares(p, x.Value.Type()) {
 						found = fmt.Sprintf("%s puts a %s taken from the table into another map (%s)", shortName(fn), x.Value.Type(), p.pos(x.Pos()))
 					}
 				case *ssa.Return:
 					for _, rv := range x.Results {
-						if derived[rv] && sharesPointers(p, rv.Type()) {
+						if derived[rv] && shares(p, rv.Type()) {
 							found = fmt.Sprintf("%s returns a %s taken from the table (%s)", shortName(fn), rv.Type(), p.pos(x.Pos()))
 						}
 					}
@@ -609,6 +652,62 @@ func globalContentEscapes(p *Program, g *ssa.Global, reach map[*ssa.Function]boo
 		}
 	}
 	return ""
+}
+
+// globalHasWriters: some function outside init stores to g itself.
+func globalHasWriters(p *Program, g *ssa.Global, reach map[*ssa.Function]bool) bool {
+	has := false
+	for fn := range reach {
+		if fn.Name() == "init" || strings.HasPrefix(fn.Name(), "init#") {
+			continue
+		}
+		allInstrs(fn, func(in ssa.Instruction) {
+			if st, ok := in.(*ssa.Store); ok && st.Addr == ssa.Value(g) {
+				has = true
+			}
+		})
+	}
+	return has
+}
+
+// mutableShare: a value of this type gives access to mutable data defined by the module — a pointer
+// to a module struct, or a slice / map / struct containing one.  Errors, functions, and pointers to
+// types of other packages (compiled regular expressions) do not count.
+func mutableShare(p *Program, t types.Type) bool {
+	seen := map[types.Type]bool{}
+	var walk func(t types.Type) bool
+	walk = func(t types.Type) bool {
+		if seen[t] {
+			return false
+		}
+		seen[t] = true
+		if isErrorType(t) {
+			return false
+		}
+		switch x := t.Underlying().(type) {
+		case *types.Pointer:
+			if n, ok := x.Elem().(*types.Named); ok && n.Obj().Pkg() != nil && strings.HasPrefix(n.Obj().Pkg().Path(), modPath) {
+				if _, isSt := n.Underlying().(*types.Struct); isSt {
+					return true
+				}
+			}
+			return false
+		case *types.Slice:
+			return walk(x.Elem())
+		case *types.Map:
+			return walk(x.Elem())
+		case *types.Array:
+			return walk(x.Elem())
+		case *types.Struct:
+			for i := 0; i < x.NumFields(); i++ {
+				if walk(x.Field(i).Type()) {
+					return true
+				}
+			}
+		}
+		return false
+	}
+	return walk(t)
 }
 
 // sharesPointers: copying a value of this type shares memory (it is, or contains, a pointer,
